@@ -410,6 +410,32 @@ Lemma msg_get_set_other e S n v m x : kept e v = true -> x <> n ->
   msg_get x (msg_set e S n v m) = if existsb (N.eqb x) S then None else msg_get x m.
 Proof. intros H Hx. rewrite msg_set_kept by exact H. rewrite msg_get_put_other by exact Hx. apply msg_get_clear_all. Qed.
 
+Lemma msg_get_set_nosib_other e n v m x : x <> n -> msg_get x (msg_set e [] n v m) = msg_get x m.
+Proof.
+  intros Hx. unfold msg_set.
+  assert (Hd : msg_get x (msg_del n m) = msg_get x m) by (apply msg_get_del_other; exact Hx).
+  assert (Hp : msg_get x (msg_put n v (msg_clear_all [] m)) = msg_get x m) by (apply msg_get_put_other; exact Hx).
+  destruct v as [z|b|s|s|bits|z|fs|[|a l]|[|a l]]; try exact Hd;
+    destruct (negb e && _); assumption.
+Qed.
+
+Lemma sfield_set_bytes n b m : sfield n (msg_set false [] n (VBytes b) m) = b.
+Proof.
+  unfold sfield, msg_set. destruct b as [|c r]; cbn [negb andb is_zero].
+  - rewrite msg_get_del_same. reflexivity.
+  - rewrite msg_get_put_same. reflexivity.
+Qed.
+
+Lemma sfield_set_str n b m : sfield n (msg_set false [] n (VStr b) m) = b.
+Proof.
+  unfold sfield, msg_set. destruct b as [|c r]; cbn [negb andb is_zero].
+  - rewrite msg_get_del_same. reflexivity.
+  - rewrite msg_get_put_same. reflexivity.
+Qed.
+
+Lemma sfield_set_other e n v m x : x <> n -> sfield x (msg_set e [] n v m) = sfield x m.
+Proof. intros Hx. unfold sfield. rewrite msg_get_set_nosib_other by exact Hx. reflexivity. Qed.
+
 (* ================================================================ paths *)
 (* the message a proto path leads to when every intermediate message is created on demand *)
 Fixpoint hole (a : list N) (m : msg) : msg :=
@@ -511,6 +537,7 @@ Section RT.
   Variable raw : jvalue -> bytes.
   Hypothesis Hraw_ne : forall j, wfb j = true -> raw j <> [].
   Variable mapchk : bool.
+  Variable any_back : option (bytes -> bytes -> outcome bytes).
   Variable env : env.
 
   (* the properties whose proto path addresses a field: an exposed oneof stands for its members *)
@@ -578,7 +605,20 @@ Section RT.
       (forall n v, msg_get n m = Some v -> (n = 1 /\ exists s, v = VStr s) \/ (n = 2 /\ exists s, v = VBytes s) \/ (n = 3 /\ exists s, v = VBytes s)) ->
       (forall s, msg_get 3 m = Some (VBytes s) -> compact_json s) ->
       (exists t, any_text m = Ok t) ->
+      (* with WithProtoToAny the decoder also converts the payload text back to proto bytes *)
+      (forall back Jd, any_back = Some back -> wfb Jd = true -> any_text m = Ok (print Jd) ->
+                       exists pb', back (sfield 1 m) (raw Jd) = Ok pb') ->
       rep_value (FAny false) (VMsg m)
+  | RV_pbany m tn :
+      (* a google.protobuf.Any: type URL with the standard prefix, payload bytes that the inner codec
+         can encode; it can be decoded only with WithProtoToAny, and the reverse conversion of the
+         payload text must succeed *)
+      sfield 1 m = any_prefix ++ tn -> valid_utf8 tn = true ->
+      (forall n v, msg_get n m = Some v -> (n = 1 /\ exists s, v = VStr s) \/ (n = 2 /\ exists s, v = VBytes s)) ->
+      (exists t, any_inner tn (sfield 2 m) = Ok t) ->
+      (exists back, any_back = Some back /\
+         forall Jd, wfb Jd = true -> any_inner tn (sfield 2 m) = Ok (print Jd) -> exists pb', back tn (raw Jd) = Ok pb') ->
+      rep_value (FAny true) (VMsg m)
   (* every populated leaf holds a representable value that Set keeps, no two members of one
      proto oneof are populated, at most one member of an exposed oneof *)
   with rep_props : list property -> msg -> Prop :=
@@ -608,6 +648,13 @@ Section RT.
       sfield 1 m' = sfield 1 m -> wfb Jd = true -> any_text m = Ok (print Jd) ->
       msg_get 3 m' = Some (VBytes (raw Jd)) ->
       equiv_value (FAny false) (VMsg m) (VMsg m')
+  | EV_pbany m m' tn Jd back :
+      (* same type URL; the value bytes are what the reverse conversion yields for the JSON value the
+         forward conversion produced (that the pair is inverse is the inner codec's own round trip) *)
+      sfield 1 m = any_prefix ++ tn -> sfield 1 m' = sfield 1 m -> wfb Jd = true ->
+      any_inner tn (sfield 2 m) = Ok (print Jd) -> any_back = Some back ->
+      back tn (raw Jd) = Ok (sfield 2 m') ->
+      equiv_value (FAny true) (VMsg m) (VMsg m')
   (* equal property by property: hence an empty flattened sub-message and an absent one agree *)
   with equiv_props : list property -> msg -> msg -> Prop :=
   | EP ps a b :
@@ -706,12 +753,12 @@ Section RT.
 
   (* ---------------------------------------------------------------- one step of each decoder function *)
   Notation dec_scalar := dsc.
-  Notation dec_value := (dec_value dsc raw mapchk env).
-  Notation dec_member := (dec_member dsc raw mapchk env).
-  Notation dec_members := (dec_members dsc raw mapchk env).
-  Notation dec_oneof := (dec_oneof dsc raw mapchk env).
-  Notation dec_items := (dec_items dsc raw mapchk env).
-  Notation dec_entries := (dec_entries dsc raw mapchk env).
+  Notation dec_value := (dec_value dsc raw mapchk any_back env).
+  Notation dec_member := (dec_member dsc raw mapchk any_back env).
+  Notation dec_members := (dec_members dsc raw mapchk any_back env).
+  Notation dec_oneof := (dec_oneof dsc raw mapchk any_back env).
+  Notation dec_items := (dec_items dsc raw mapchk any_back env).
+  Notation dec_entries := (dec_entries dsc raw mapchk any_back env).
 
   Lemma dec_member_S f d p j m seen :
     dec_member (S f) d p j m seen =
@@ -827,8 +874,18 @@ Section RT.
                   | None, _ => Err "no type found in Any"
                   | _, None => Err "no value found in Any"
                   | Some tn, Some v =>
-                      if pb then Err "proto is required for PB Any"
-                      else Ok (msg_put n (VMsg (msg_set false [] 3 (VBytes (raw v)) (msg_set false [] 1 (VStr tn) sub))) h1)
+                      match any_back with
+                      | None =>
+                          if pb then Err "proto is required for PB Any"
+                          else Ok (msg_put n (VMsg (msg_set false [] 3 (VBytes (raw v)) (msg_set false [] 1 (VStr tn) sub))) h1)
+                      | Some back =>
+                          obind (back tn (raw v)) (fun pbytes =>
+                            if pb then
+                              Ok (msg_put n (VMsg (msg_set false [] 2 (VBytes pbytes) (msg_set false [] 1 (VStr (any_prefix ++ tn)) sub))) h1)
+                            else
+                              Ok (msg_put n (VMsg (msg_set false [] 3 (VBytes (raw v)) (msg_set false [] 2 (VBytes pbytes)
+                                                    (msg_set false [] 1 (VStr tn) sub)))) h1))
+                      end
                   end))
           | _ => Err "unexpected token, expected {"
           end
@@ -883,6 +940,18 @@ Section RT.
       Inv (leaves ps0) m D acc -> (forall q, In q ps -> ~ In q D) ->
       exists acc', dec_oneof F d ps ms acc [] [] None = Ok acc' /\ Inv (leaves ps0) m (ps ++ D) acc'.
 
+  (* what decodeAny stores in a fresh Any message for the value member Jv and the type name tn *)
+  Definition any_stored (pb : bool) (tn : bytes) (Jv : jvalue) : outcome msg :=
+    match any_back with
+    | None =>
+        if pb then Err "proto is required for PB Any"
+        else Ok (msg_set false [] 3 (VBytes (raw Jv)) (msg_set false [] 1 (VStr tn) []))
+    | Some back =>
+        obind (back tn (raw Jv)) (fun pbytes =>
+          if pb then Ok (msg_set false [] 2 (VBytes pbytes) (msg_set false [] 1 (VStr (any_prefix ++ tn)) []))
+          else Ok (msg_set false [] 3 (VBytes (raw Jv)) (msg_set false [] 2 (VBytes pbytes) (msg_set false [] 1 (VStr tn) []))))
+    end.
+
   Definition dec_ok_value (t : field_ty) (v : pval) (J : jvalue) : Prop :=
     match t with
     | FScalar k =>
@@ -905,9 +974,8 @@ Section RT.
           exists es', dec_entries F d it ms [] [] = Ok es' /\
                       Forall2 (fun kv kv' => fst kv = fst kv' /\ equiv_value it (snd kv) (snd kv')) es es' /\ es' <> []
     | FAny pb =>
-        pb = false /\
-        exists ms m tn Jv, J = JObj ms /\ v = VMsg m /\ any_members ms None None = Ok (Some Jv, Some tn) /\
-                           tn = sfield 1 m /\ any_text m = Ok (print Jv)
+        exists ms m tn Jv sub', J = JObj ms /\ v = VMsg m /\ any_members ms None None = Ok (Some Jv, Some tn) /\
+                                any_stored pb tn Jv = Ok sub' /\ equiv_value (FAny pb) (VMsg m) (VMsg sub')
     end.
 
   (* ---------------------------------------------------------------- a leaf property reads its printed value *)
@@ -1049,7 +1117,7 @@ Section RT.
         exists acc', (VMsg b). split; [exact Hh|]. split; [econstructor; eassumption|]. split; assumption.
       - (* oneof wrapper held by a field *)
         destruct Hdec as (ps & ms & mv & Hlk & -> & -> & Hone). rewrite Hlk.
-        inversion Hrv as [| | |? ? ? Hlk' Hrp Hamo| | |]; subst. rewrite Hlk in Hlk'. injection Hlk' as <-.
+        inversion Hrv as [| | |? ? ? Hlk' Hrp Hamo| | | |]; subst. rewrite Hlk in Hlk'. injection Hlk' as <-.
         inversion Hrp as [? ? Hokps _ _ _]; subst.
         pose proof (leaves_flat ps (Hflat _ _ Hlk)) as Hlv.
         destruct (Hone F (d + 1) ps [] []) as (b & Hb & HinvB).
@@ -1090,8 +1158,7 @@ Section RT.
           as (acc' & Hh & Hp & Hfr).
         exists acc', (VMap es'). split; [exact Hh|]. split; [constructor; exact Hf2|]. split; assumption.
       - (* any *)
-        destruct Hdec as (-> & ms & mv & tn & Jv & -> & -> & Ham & Htn & Htxt).
-        set (sub' := msg_set false [] 3 (VBytes (raw Jv)) (msg_set false [] 1 (VStr tn) [])).
+        destruct Hdec as (ms & mv & tn & Jv & sub' & -> & -> & Ham & Hst & Hequiv).
         destruct (setter_fresh_msg (p_siblings l) n sub' (hole a acc) Hfresh) as [Hmut Hset].
         assert (Hk : (fun n0 h => let '(sub, h1) := msg_mutable (p_siblings l) n0 h in
                        obind (any_members ms None None) (fun vt =>
@@ -1099,15 +1166,27 @@ Section RT.
                          | None, _ => Err "no type found in Any"
                          | _, None => Err "no value found in Any"
                          | Some tn0, Some v0 =>
-                             if false then Err "proto is required for PB Any"
-                             else Ok (msg_put n0 (VMsg (msg_set false [] 3 (VBytes (raw v0)) (msg_set false [] 1 (VStr tn0) sub))) h1)
+                             match any_back with
+                             | None =>
+                                 if pb then Err "proto is required for PB Any"
+                                 else Ok (msg_put n0 (VMsg (msg_set false [] 3 (VBytes (raw v0)) (msg_set false [] 1 (VStr tn0) sub))) h1)
+                             | Some back =>
+                                 obind (back tn0 (raw v0)) (fun pbytes =>
+                                   if pb then
+                                     Ok (msg_put n0 (VMsg (msg_set false [] 2 (VBytes pbytes) (msg_set false [] 1 (VStr (any_prefix ++ tn0)) sub))) h1)
+                                   else
+                                     Ok (msg_put n0 (VMsg (msg_set false [] 3 (VBytes (raw v0)) (msg_set false [] 2 (VBytes pbytes)
+                                                           (msg_set false [] 1 (VStr tn0) sub)))) h1))
+                             end
                          end))
-                     n (hole a acc) = Ok (msg_put n (VMsg sub') (msg_put n (VMsg []) (msg_clear_all (p_siblings l) (hole a acc)))))
-          by (cbv beta; rewrite Hmut, Ham; reflexivity).
+                     n (hole a acc) = Ok (msg_put n (VMsg sub') (msg_put n (VMsg []) (msg_clear_all (p_siblings l) (hole a acc))))).
+        { cbv beta. rewrite Hmut, Ham. cbn [obind fst snd]. unfold any_stored in Hst.
+          destruct any_back as [back|].
+          - destruct (back tn (raw Jv)) as [pbytes| | |]; try discriminate. cbn [obind] in Hst |- *.
+            destruct pb; injection Hst as <-; reflexivity.
+          - destruct pb; [discriminate|]. injection Hst as <-. reflexivity. }
         destruct (leaf_frame ps0 l a n _ acc _ (VMsg sub') Hok Hl Hsn Hk Hset) as (acc' & Hh & Hp & Hfr).
-        exists acc', (VMsg sub'). split; [exact Hh|]. split; [|split; assumption].
-        apply any_result_equiv; try assumption.
-        cbn [wfb] in Hwf. apply (any_members_wf ms Hwf None None Jv (Some tn) I Ham). }
+        exists acc', (VMsg sub'). split; [exact Hh|]. split; [exact Hequiv|split; assumption]. }
     destruct Hgoal as (acc' & v' & Hdv & Heq & Hp & Hfr).
     rewrite Hseen, Hconf, Hdv. cbn [obind]. exists acc'. split; [destruct J; try reflexivity; congruence|].
     eapply inv_step; eassumption.
@@ -1310,7 +1389,7 @@ Section RT.
         destruct (IH F d (acc ++ [VMsg b])) as (l' & Hl' & Hf); [lia|exact Hd'|].
         exists (VMsg b :: l'). rewrite Hl', <- app_assoc. split; [reflexivity|]. constructor; [econstructor; eassumption|exact Hf].
       + destruct Hdec as (ps & ms & mv & Hlk & -> & -> & Hone). rewrite Hlk.
-        inversion Hrv as [| | |? ? ? Hlk' Hrp Hamo| | |]; subst. rewrite Hlk in Hlk'. injection Hlk' as <-.
+        inversion Hrv as [| | |? ? ? Hlk' Hrp Hamo| | | |]; subst. rewrite Hlk in Hlk'. injection Hlk' as <-.
         destruct (oneof_fresh r ps mv ms F d Hlk Hrp Hone) as (b & Hb & Heq).
         { rewrite jsize_obj in HF. lia. } { unfold depth_ok in *. rewrite jnest_obj in Hd. lia. }
         rewrite Hb. cbn [obind].
@@ -1380,7 +1459,7 @@ Section RT.
         exists ((k, VMsg b) :: es'). rewrite Hes', <- app_assoc. split; [reflexivity|].
         constructor; [split; [reflexivity|econstructor; eassumption]|exact Hf].
       + destruct Hdec as (ps & ms' & mv & Hlk & -> & -> & Hone). rewrite Hget, Hlk.
-        inversion Hrv as [| | |? ? ? Hlk' Hrp Hamo| | |]; subst. rewrite Hlk in Hlk'. injection Hlk' as <-.
+        inversion Hrv as [| | |? ? ? Hlk' Hrp Hamo| | | |]; subst. rewrite Hlk in Hlk'. injection Hlk' as <-.
         destruct (oneof_fresh r ps mv ms' F d Hlk Hrp Hone) as (b & Hb & Heq).
         { rewrite jsize_obj in HF. lia. } { unfold depth_ok in *. rewrite jnest_obj in Hd. lia. }
         rewrite Hb. cbn [obind]. rewrite map_set_fresh by exact Hget.
@@ -1630,7 +1709,7 @@ Section RT.
     (* ---- values *)
     intros t v txt H Hrv. rewrite enc_value_S in H. destruct t as [k|r|r|r|it|it|pb].
     - (* scalar *)
-      inversion Hrv as [? ? Hrs| | | | | |]; subst.
+      inversion Hrv as [? ? Hrs| | | | | | |]; subst.
       destruct (Hscalar k v Hrs)
         as (J & (txt0 & He & ->) & Hw & Hnc & HJ & v' & Hds & Heq).
       rewrite He in H. injection H as <-.
@@ -1638,16 +1717,16 @@ Section RT.
       cbn [dec_ok_value]. split; [exact Hnc|]. exists v'. split; [exact Hds|]. split; [exact Heq|].
       intros e. apply (kept_scalar_equiv k v v' e Heq).
     - (* enum *)
-      inversion Hrv as [|? ? ? ? ? Hlk Hbn Hbnm Hvn| | | | |]; subst. rewrite Hlk, Hbn in H.
+      inversion Hrv as [|? ? ? ? ? Hlk Hbn Hbnm Hvn| | | | | |]; subst. rewrite Hlk, Hbn in H.
       apply escape_ok in H as [Hv ->]. exists (JStr name). split; [reflexivity|]. split; [exact Hv|]. split; [discriminate|].
       cbn [dec_ok_value]. exists pre, opts, name, n. repeat split; assumption.
     - (* object *)
-      inversion Hrv as [| |? ? ? Hlk Hrp| | | |]; subst. rewrite Hlk in H.
+      inversion Hrv as [| |? ? ? Hlk Hrp| | | | |]; subst. rewrite Hlk in H.
       destruct (TOb f ltac:(lia) _ _ _ H Hrp) as (ms & -> & Hw & Hd).
       exists (JObj ms). split; [reflexivity|]. split; [exact Hw|]. split; [discriminate|].
       cbn [dec_ok_value]. exists ps, ms, m. repeat split; assumption.
     - (* oneof *)
-      inversion Hrv as [| | |? ? ? Hlk Hrp Hamo| | |]; subst. rewrite Hlk in H.
+      inversion Hrv as [| | |? ? ? Hlk Hrp Hamo| | | |]; subst. rewrite Hlk in H.
       inversion Hrp as [? ? Hokps Hvals _ _]; subst.
       pose proof (leaves_flat ps (Hflat _ _ Hlk)) as Hlv.
       destruct (TOn f ltac:(lia) r ps m txt Hlk H) as (ms & -> & Hw & Hd).
@@ -1655,7 +1734,7 @@ Section RT.
       exists (JObj ms). split; [reflexivity|]. split; [exact Hw|]. split; [discriminate|].
       cbn [dec_ok_value]. exists ps, ms, m. repeat split; assumption.
     - (* array *)
-      inversion Hrv as [| | | |? ? Hne Hit Hall| |]; subst.
+      inversion Hrv as [| | | |? ? Hne Hit Hall| | |]; subst.
       apply omap_ok in H as (xs & Hxs & ->).
       assert (Hel : exists js, xs = map print js /\ forallb wfb js = true /\ Forall2 (elem_ok it) l js).
       { clear Hne Hrv. revert xs Hxs. induction Hall as [|x r Hx Hr IH]; intros xs Hxs; cbn [map sequence] in Hxs.
@@ -1672,7 +1751,7 @@ Section RT.
       exists l'. split; [exact Hl'|]. split; [exact Hf|].
       intros ->. inversion Hf; subst. congruence.
     - (* map *)
-      inversion Hrv as [| | | | |? ? Hne Hit Hnd Hall Hku|]; subst.
+      inversion Hrv as [| | | | |? ? Hne Hit Hnd Hall Hku| |]; subst.
       apply omap_ok in H as (xs & Hxs & ->).
       assert (Hel : exists ms, xs = map member_text ms /\
                 forallb (fun kv => valid_utf8 (fst kv) && wfb (snd kv)) ms = true /\
@@ -1698,26 +1777,58 @@ Section RT.
       intros ->. inversion Hf as [|? ? ? ? ? ? E1 E2]; subst. apply Hne. reflexivity.
     - (* any *)
       destruct v as [| | | | | |m| |]; try discriminate.
-      inversion Hrv as [| | | | | |? Hvt Hshape Hraw Hat]; subst.
       unfold enc_any in H.
       apply obind_ok in H as (tn0 & Htn & H). apply obind_ok in H as (data & Hdata & H).
       apply obind_ok in H as (l1 & Hl1 & H). apply obind_ok in H as (t & Ht & H).
       apply obind_ok in H as (l2 & Hl2 & H). injection H as <-.
       apply escape_ok in Hl1 as [_ ->]. apply escape_ok in Hl2 as [_ ->]. apply escape_ok in Ht as [Hvtn ->].
-      cbv iota in Hdata, Hvtn |- *.
       pose proof (field_bytes_s _ _ _ Htn) as Hs1.
-      assert (Hc : compact_json data /\ any_text m = Ok data).
-      { unfold any_text. rewrite Hs1.
-        destruct (msg_get 3 m) as [v3|] eqn:E3.
-        - destruct (Hshape 3 v3 E3) as [(Hn & _)|[(Hn & _)|(_ & s & ->)]]; try discriminate.
-          injection Hdata as <-. split; [|reflexivity]. apply Hraw. reflexivity.
-        - apply obind_ok in Hdata as (pbytes & Hpb & Hd). rewrite (field_bytes_s _ _ _ Hpb).
-          split; [eapply Hinner; exact Hd|exact Hd]. }
-      destruct Hc as [(Jd & Hwd & ->) Htxt].
-      exists (JObj [(txt_type, JStr tn0); (txt_value, Jd)]). split; [rewrite print_two; reflexivity|].
-      split; [cbn [wfb forallb fst snd]; rewrite Hvtn, Hwd; reflexivity|]. split; [discriminate|].
-      cbn [dec_ok_value]. split; [reflexivity|]. exists [(txt_type, JStr tn0); (txt_value, Jd)], m, tn0, Jd.
-      repeat split; try assumption; try reflexivity. symmetry. exact Hs1.
+      revert Hs1. inversion Hrv as [| | | | | |? Hvt Hshape Hraw Hat Hbk|? tn Hurl Hvt Hshape Hat Hbk]; subst; intros Hs1.
+      + (* a j5 Any *)
+        cbv iota in Hdata, Hvtn |- *.
+        assert (Hc : compact_json data /\ any_text m = Ok data).
+        { unfold any_text. rewrite Hs1.
+          destruct (msg_get 3 m) as [v3|] eqn:E3.
+          - destruct (Hshape 3 v3 E3) as [(Hn & _)|[(Hn & _)|(_ & s & ->)]]; try discriminate.
+            injection Hdata as <-. split; [|reflexivity]. apply Hraw. reflexivity.
+          - apply obind_ok in Hdata as (pbytes & Hpb & Hd). rewrite (field_bytes_s _ _ _ Hpb).
+            split; [eapply Hinner; exact Hd|exact Hd]. }
+        destruct Hc as [(Jd & Hwd & ->) Htxt].
+        assert (Hst : exists sub', any_stored false tn0 Jd = Ok sub' /\ equiv_value (FAny false) (VMsg m) (VMsg sub')).
+        { unfold any_stored. destruct any_back as [back|] eqn:Eb.
+          - destruct (Hbk back Jd eq_refl Hwd Htxt) as (pb' & Hpb'). rewrite Hs1 in Hpb'. rewrite Hpb'. cbn [obind].
+            eexists. split; [reflexivity|].
+            pose proof (Hraw_ne Jd Hwd) as Hpn.
+            assert (Hk3 : kept false (VBytes (raw Jd)) = true) by (cbn; destruct (raw Jd); [congruence|reflexivity]).
+            apply EV_any with (Jd := Jd); [|exact Hwd|exact Htxt|apply msg_get_set_same; exact Hk3].
+            rewrite sfield_set_other by lia. rewrite sfield_set_other by lia. rewrite sfield_set_str. symmetry. exact Hs1.
+          - eexists. split; [reflexivity|]. apply any_result_equiv; [exact Hwd|symmetry; exact Hs1|exact Htxt]. }
+        destruct Hst as (sub' & Hst & Hequiv).
+        exists (JObj [(txt_type, JStr tn0); (txt_value, Jd)]). split; [rewrite print_two; reflexivity|].
+        split; [cbn [wfb forallb fst snd]; rewrite Hvtn, Hwd; reflexivity|]. split; [discriminate|].
+        cbn [dec_ok_value]. exists [(txt_type, JStr tn0); (txt_value, Jd)], m, tn0, Jd, sub'.
+        repeat split; try assumption; reflexivity.
+      + (* a google.protobuf.Any *)
+        cbv iota in Hdata, Hvtn |- *.
+        assert (Htrim : trim_prefix any_prefix tn0 = tn).
+        { rewrite <- Hs1, Hurl. unfold trim_prefix.
+          assert (Hsp : forall p t, strip_prefix p (p ++ t) = Some t).
+          { clear. induction p as [|c r IH]; intros t; cbn [app strip_prefix]; [reflexivity|]. rewrite N.eqb_refl. apply IH. }
+          rewrite Hsp. reflexivity. }
+        rewrite Htrim in *.
+        apply obind_ok in Hdata as (pbytes & Hpb & Hd). rewrite <- (field_bytes_s _ _ _ Hpb) in Hd.
+        destruct (Hinner _ _ _ Hd) as (Jd & Hwd & ->).
+        destruct Hbk as (back & Eb & Hbk'). destruct (Hbk' Jd Hwd Hd) as (pb' & Hpb').
+        exists (JObj [(txt_type, JStr tn); (txt_value, Jd)]). split; [rewrite print_two; reflexivity|].
+        split; [cbn [wfb forallb fst snd]; rewrite Hvtn, Hwd; reflexivity|]. split; [discriminate|].
+        cbn [dec_ok_value].
+        exists [(txt_type, JStr tn); (txt_value, Jd)], m, tn, Jd,
+               (msg_set false [] 2 (VBytes pb') (msg_set false [] 1 (VStr (any_prefix ++ tn)) [])).
+        split; [reflexivity|]. split; [reflexivity|]. split; [reflexivity|].
+        split; [unfold any_stored; rewrite Eb, Hpb'; reflexivity|].
+        apply EV_pbany with (tn := tn) (Jd := Jd) (back := back); try assumption.
+        * rewrite sfield_set_other by lia. rewrite sfield_set_str. symmetry. exact Hurl.
+        * rewrite sfield_set_bytes. exact Hpb'.
   Qed.
 
   (* ---------------------------------------------------------------- the codec round trip *)
@@ -1736,16 +1847,16 @@ Section RT.
     | _ => False
     end.
 
-  Theorem codec_roundtrip root m txt :
+  Theorem codec_roundtrip_print root m txt :
     rep_root root m -> encode fmt_float any_inner env root m = Ok txt ->
-    exists J, strict_parse txt = Some J /\
+    exists J, txt = print J /\ wfb J = true /\
       (N.of_nat (jnest J) <= max_nesting ->
-       exists m', decode_tree dsc raw mapchk env root J = Ok m' /\ equiv_root root m m').
+       exists m', decode_tree dsc raw mapchk any_back env root J = Ok m' /\ equiv_root root m m').
   Proof.
     unfold rep_root, equiv_root, encode, encode_fuel, decode_tree, decode_tree_fuel. intros Hrep H.
     set (f := (4 * pval_depth (VMsg m) + 4)%nat) in *. destruct (T_all f) as (_ & TOb & TOn).
     destruct (lookup env root) as [[ps|ps|]|] eqn:Elk; try contradiction.
-    - destruct (TOb _ _ _ H Hrep) as (ms & -> & Hw & Hd). exists (JObj ms). split; [apply parse_print; exact Hw|].
+    - destruct (TOb _ _ _ H Hrep) as (ms & -> & Hw & Hd). exists (JObj ms). split; [reflexivity|]. split; [exact Hw|].
       intros Hn. rewrite jnest_obj in Hn.
       destruct (Hd (3 * jsize (JObj ms) + 3)%nat 0) as (b & Hb & Heq).
       { rewrite jsize_obj. lia. } { unfold depth_ok. lia. }
@@ -1754,11 +1865,21 @@ Section RT.
       pose proof (leaves_flat ps (Hflat _ _ Elk)) as Hlv.
       destruct (TOn root ps m txt Elk H) as (ms & -> & Hw & Hd).
       { intros q w Hq Hw. apply (Hvals q w); [rewrite Hlv; exact Hq|exact Hw]. }
-      exists (JObj ms). split; [apply parse_print; exact Hw|].
+      exists (JObj ms). split; [reflexivity|]. split; [exact Hw|].
       intros Hn. rewrite jnest_obj in Hn.
       destruct (oneof_fresh root ps m ms (3 * jsize (JObj ms) + 3)%nat 0 Elk Hrep Hd) as (b & Hb & Heq).
       { rewrite jsize_obj. lia. } { unfold depth_ok. lia. }
       exists b. split; assumption.
+  Qed.
+
+  Theorem codec_roundtrip root m txt :
+    rep_root root m -> encode fmt_float any_inner env root m = Ok txt ->
+    exists J, strict_parse txt = Some J /\
+      (N.of_nat (jnest J) <= max_nesting ->
+       exists m', decode_tree dsc raw mapchk any_back env root J = Ok m' /\ equiv_root root m m').
+  Proof.
+    intros Hrep H. destruct (codec_roundtrip_print root m txt Hrep H) as (J & -> & Hw & Hd).
+    exists J. split; [apply parse_print; exact Hw|exact Hd].
   Qed.
 
   (* ---------------------------------------------------------------- the static conditions, decided *)
